@@ -13,6 +13,18 @@ git -C /repo worktree add -q --detach $WT HEAD || exit 2
 rm -rf /verif/.build/evidence.keep.$$; cp -a /verif/evidence /verif/.build/evidence.keep.$$
 cleanup() { rm -rf /verif/evidence; mv /verif/.build/evidence.keep.$$ /verif/evidence; rm -rf /verif/replays/*; git -C /repo worktree remove --force $WT 2>/dev/null; git -C /repo checkout -q -- . ; git -C /repo clean -fdq; }
 trap cleanup EXIT
+if [ -n "${SKIP_CONFIRM:-}" ]; then
+  # seeds under seeded/ were confirmed when they were stored: only run the checks
+  cd /verif
+  echo "SEED CONFIRMED (earlier; confirmation skipped)"
+  git -C /repo apply $D/patch.diff || { echo "patch does not apply to /repo"; exit 2; }
+  for id in $IDS; do
+    out=$(/verif/check $id ${TIER:-quick} 2>&1); rc=$?
+    echo "== check $id rc=$rc"
+    echo "$out" | grep -E "VIOLATION|HARNESS" | cut -c1-330 | head -3
+  done
+  exit 0
+fi
 cd $WT
 demo=zz_seed_demo_test.go
 # the demonstration's own -run pattern and -race flag, when its recorded command has them
